@@ -39,31 +39,31 @@ type WorkItem struct {
 }
 
 type Path struct {
-	Prefix    []int32
-	pos       int
-	Decisions []int32
-	PC        []*term.T
-	Model     term.Model
-	ModelOK   bool
-	Tainted   bool
-	Steps     int64
-	Allocs    int
-	Inputs    []Input
-	names     map[string]int
-	Obs       []Obs
-	Covers    []string
-	ConcLimit int
-	Profile   bool
-	Forks     int
-	SymForks  int
-	Assumed   int
-	pcVars    map[string]*term.T
-	bind      map[int]*term.T
-	substMemo map[int]*term.T
-	pcSet     map[int]bool
-	loops     map[*fnInfo]int64
-	Notes     []string
-	termVal   map[int]*term.T
+	Prefix       []int32
+	pos          int
+	Decisions    []int32
+	PC           []*term.T
+	Model        term.Model
+	ModelOK      bool
+	Tainted      bool
+	Steps        int64
+	Allocs       int
+	Inputs       []Input
+	names        map[string]int
+	Obs          []Obs
+	Covers       []string
+	ConcLimit    int
+	Profile      bool
+	Forks        int
+	SymForks     int
+	Assumed      int
+	pcVars       map[string]*term.T
+	bind         map[int]*term.T
+	substMemo    map[int]*term.T
+	pcSet        map[int]bool
+	loops        map[*fnInfo]int64
+	Notes        []string
+	termVal      map[int]*term.T
 	stackAtAbort []*fnInfo
 }
 
